@@ -91,6 +91,12 @@ def affine(I, n: Node, subst=None, depth=0):
     if n.op == "UnaryOp" and n.attr == "USub":
         a = affine(I, n.args[0], subst, depth + 1)
         return None if a is None else ({k: -v for k, v in a[0].items()}, -a[1])
+    if n.op == "Len" and n.args and n.args[0].op == "ListComp" and len(n.args[0].args) == 2 and \
+            n.args[0].args[0].op == "Range":
+        # len([f(k) for k in range(...)]) is the number of elements of the range
+        rc = range_count(I, n.args[0].args[0])
+        if rc is not None:
+            return rc
     return ({("atom", I.g.vn(n)): Fraction(1)}, Fraction(0))
 
 
